@@ -130,3 +130,357 @@ pub proof fn lemma_root_floor(g: GlobalPermissions)
     requires is_root_global(g),
     ensures g.read_servers && g.read_users && g.manage_users && g.read_streams && g.manage_streams && g.read_topics && g.manage_topics && g.poll_messages && g.send_messages,
 {}
+
+// ---- LINK harnesses: the contracts other units ASSUME for functions proved here, proved from the real ones ---------------------
+// Each harness has the assuming unit's stub signature, its `requires` / `ensures` copied VERBATIM from that unit's prelude.rs, and a
+// body that is ONE call of the real extracted function: Verus proves "real contract ==> assumed contract" on every run.
+// A later edit of a stub has to be mirrored here (and vice versa).
+//
+// Unit authn_gate (units/authn_gate/prelude.rs, `impl Permissioner`) sees the Permissioner as an OPAQUE object and states its stubs over
+// four UNINTERPRETED spec functions: `allows(rule, user, stream, topic)`, `no_anon()`, `wf()`, `rows(user)`. The link gives them their
+// INTERPRETATION over the real tables (a projection of this unit's vocabulary):
+//   allows(rule, ..)  = the exact transcript `dec_*` of the rule method that serves the class ([C09.shape.*]); ids a rule does not take are 0
+//   no_anon()         = no_rows(self, 0)
+//   wf()              = perm_wf(self)                     (the denormalisation invariant the five message rules rely on)
+//   rows(u)           = the slice of the six tables that belongs to user u (`UserRows`: faithful, two tables agree on rows(u) iff every
+//                       entry keyed by u is the same)
+// (vocabulary of units/authn_gate/prelude.rs used by the copied clauses: `Rule`, `rule_result` are verbatim copies)
+pub enum Rule {
+    GetStats, GetClients, GetClient, GetUser, GetUsers, CreateUser, DeleteUser, UpdateUser, UpdatePermissions, ChangePassword, GetStreams, CreateStream,
+    GetStream, UpdateStream, DeleteStream, PurgeStream, GetTopics, CreateTopic,
+    GetTopic, UpdateTopic, DeleteTopic, PurgeTopic, CreatePartitions, DeletePartitions, PollMessages, AppendMessages, CreateConsumerGroup,
+    DeleteConsumerGroup, GetConsumerGroup, GetConsumerGroups, JoinConsumerGroup, LeaveConsumerGroup, GetConsumerOffset, StoreConsumerOffset, DeleteConsumerOffset,
+}
+pub ghost struct UserRows {
+    pub g: Option<GlobalPermissions>,
+    pub s: spec_fn(u32) -> Option<StreamPermissions>,
+    pub poll_all: bool,
+    pub send_all: bool,
+    pub poll_s: spec_fn(u32) -> bool,
+    pub send_s: spec_fn(u32) -> bool,
+}
+pub open spec fn rule_result(p: &Permissioner, r: Result<(), IggyError>, rule: Rule, u: u32, s: u32, t: u32) -> bool {
+    &&& r is Ok <==> p.allows(rule, u, s, t)
+    &&& (p.no_anon() && u == 0) ==> r is Err
+}
+impl Permissioner {
+    pub open spec fn allows(&self, rule: Rule, user_id: u32, stream_id: u32, topic_id: u32) -> bool {
+        match rule {
+            Rule::GetStats | Rule::GetClients | Rule::GetClient => dec_server(self, user_id),
+            Rule::GetUser | Rule::GetUsers => dec_user_read(self, user_id),
+            Rule::CreateUser | Rule::DeleteUser | Rule::UpdateUser | Rule::UpdatePermissions | Rule::ChangePassword => dec_user_write(self, user_id),
+            Rule::GetStreams => dec_get_streams(self, user_id),
+            Rule::CreateStream => dec_create_stream(self, user_id),
+            Rule::GetStream => dec_get_stream(self, user_id, stream_id),
+            Rule::UpdateStream | Rule::DeleteStream | Rule::PurgeStream => dec_manage_stream(self, user_id, stream_id),
+            Rule::GetTopics => dec_get_topics(self, user_id, stream_id),
+            Rule::CreateTopic => dec_create_topic(self, user_id, stream_id),
+            Rule::GetTopic | Rule::CreateConsumerGroup | Rule::DeleteConsumerGroup | Rule::GetConsumerGroup | Rule::GetConsumerGroups
+                | Rule::JoinConsumerGroup | Rule::LeaveConsumerGroup => dec_get_topic(self, user_id, stream_id, topic_id),
+            Rule::UpdateTopic | Rule::DeleteTopic | Rule::PurgeTopic | Rule::CreatePartitions | Rule::DeletePartitions
+                => dec_manage_topic(self, user_id, stream_id, topic_id),
+            Rule::PollMessages | Rule::GetConsumerOffset | Rule::StoreConsumerOffset | Rule::DeleteConsumerOffset
+                => dec_poll(self, user_id, stream_id, topic_id),
+            Rule::AppendMessages => dec_send(self, user_id, stream_id, topic_id),
+        }
+    }
+    pub open spec fn no_anon(&self) -> bool { no_rows(self, 0) }
+    pub open spec fn wf(&self) -> bool { perm_wf(self) }
+    pub open spec fn rows(&self, user_id: u32) -> UserRows {
+        UserRows {
+            g: if self.users_permissions@.contains_key(user_id) { Some(self.users_permissions@[user_id]) } else { None },
+            s: |s: u32| if self.users_streams_permissions@.contains_key((user_id, s)) { Some(self.users_streams_permissions@[(user_id, s)]) } else { None },
+            poll_all: self.users_that_can_poll_messages_from_all_streams@.contains(user_id),
+            send_all: self.users_that_can_send_messages_to_all_streams@.contains(user_id),
+            poll_s: |s: u32| self.users_that_can_poll_messages_from_specific_streams@.contains((user_id, s)),
+            send_s: |s: u32| self.users_that_can_send_messages_to_specific_streams@.contains((user_id, s)),
+        }
+    }
+}
+// the frame clause [C09.tables.*.others] in authn_gate's vocabulary: the rows of every other user, and (for a user other than 0) the
+// absence of rows of user 0, are untouched
+pub proof fn lemma_rows_frame(a: &Permissioner, b: &Permissioner, u: u32)
+    requires others_same(a, b, u),
+    ensures
+        forall|v: u32| v != u ==> #[trigger] b.rows(v) == a.rows(v),
+        u != 0 ==> b.no_anon() == a.no_anon(),
+{
+    assert forall|v: u32| v != u implies #[trigger] b.rows(v) == a.rows(v) by {
+        assert(b.rows(v).s =~= a.rows(v).s);
+        assert(b.rows(v).poll_s =~= a.rows(v).poll_s);
+        assert(b.rows(v).send_s =~= a.rows(v).send_s);
+    }
+    if u != 0 {
+        // others_same is triggered on b's terms: instantiate it for a's
+        assert forall|s: u32| a.users_streams_permissions@.contains_key((0u32, s)) == b.users_streams_permissions@.contains_key((0u32, s)) by {}
+        assert forall|s: u32| a.users_that_can_poll_messages_from_specific_streams@.contains((0u32, s)) == b.users_that_can_poll_messages_from_specific_streams@.contains((0u32, s)) by {}
+        assert forall|s: u32| a.users_that_can_send_messages_to_specific_streams@.contains((0u32, s)) == b.users_that_can_send_messages_to_specific_streams@.contains((0u32, s)) by {}
+        assert(a.users_permissions@.contains_key(0u32) == b.users_permissions@.contains_key(0u32));
+        assert(a.users_that_can_poll_messages_from_all_streams@.contains(0u32) == b.users_that_can_poll_messages_from_all_streams@.contains(0u32));
+        assert(a.users_that_can_send_messages_to_all_streams@.contains(0u32) == b.users_that_can_send_messages_to_all_streams@.contains(0u32));
+        assert(no_rows(a, 0) == no_rows(b, 0));
+    }
+}
+impl Permissioner {
+    // --- the 35 rule methods: copied from units/authn_gate/prelude.rs, `impl Permissioner` (stubs get_stats .. delete_consumer_offset).
+    // The five message rules carry `requires self.wf()`: ADDED to the stubs by this link (the real functions require perm_wf(self); the
+    // stubs had silently dropped it).
+    // label: C09.link.authn_gate.get_stats
+    pub fn link_authn_gate_get_stats(&self, user_id: u32) -> (r: Result<(), IggyError>)
+        ensures rule_result(self, r, Rule::GetStats, user_id, 0, 0),
+    { self.get_stats(user_id) }
+    // label: C09.link.authn_gate.get_clients
+    pub fn link_authn_gate_get_clients(&self, user_id: u32) -> (r: Result<(), IggyError>)
+        ensures rule_result(self, r, Rule::GetClients, user_id, 0, 0),
+    { self.get_clients(user_id) }
+    // label: C09.link.authn_gate.get_client
+    pub fn link_authn_gate_get_client(&self, user_id: u32) -> (r: Result<(), IggyError>)
+        ensures rule_result(self, r, Rule::GetClient, user_id, 0, 0),
+    { self.get_client(user_id) }
+    // label: C09.link.authn_gate.get_user
+    pub fn link_authn_gate_get_user(&self, user_id: u32) -> (r: Result<(), IggyError>)
+        ensures rule_result(self, r, Rule::GetUser, user_id, 0, 0),
+    { self.get_user(user_id) }
+    // label: C09.link.authn_gate.get_users
+    pub fn link_authn_gate_get_users(&self, user_id: u32) -> (r: Result<(), IggyError>)
+        ensures rule_result(self, r, Rule::GetUsers, user_id, 0, 0),
+    { self.get_users(user_id) }
+    // label: C09.link.authn_gate.create_user
+    pub fn link_authn_gate_create_user(&self, user_id: u32) -> (r: Result<(), IggyError>)
+        ensures rule_result(self, r, Rule::CreateUser, user_id, 0, 0),
+    { self.create_user(user_id) }
+    // label: C09.link.authn_gate.delete_user
+    pub fn link_authn_gate_delete_user(&self, user_id: u32) -> (r: Result<(), IggyError>)
+        ensures rule_result(self, r, Rule::DeleteUser, user_id, 0, 0),
+    { self.delete_user(user_id) }
+    // label: C09.link.authn_gate.update_user
+    pub fn link_authn_gate_update_user(&self, user_id: u32) -> (r: Result<(), IggyError>)
+        ensures rule_result(self, r, Rule::UpdateUser, user_id, 0, 0),
+    { self.update_user(user_id) }
+    // label: C09.link.authn_gate.update_permissions
+    pub fn link_authn_gate_update_permissions(&self, user_id: u32) -> (r: Result<(), IggyError>)
+        ensures rule_result(self, r, Rule::UpdatePermissions, user_id, 0, 0),
+    { self.update_permissions(user_id) }
+    // label: C09.link.authn_gate.change_password
+    pub fn link_authn_gate_change_password(&self, user_id: u32) -> (r: Result<(), IggyError>)
+        ensures rule_result(self, r, Rule::ChangePassword, user_id, 0, 0),
+    { self.change_password(user_id) }
+    // label: C09.link.authn_gate.get_streams
+    pub fn link_authn_gate_get_streams(&self, user_id: u32) -> (r: Result<(), IggyError>)
+        ensures rule_result(self, r, Rule::GetStreams, user_id, 0, 0),
+    { self.get_streams(user_id) }
+    // label: C09.link.authn_gate.create_stream
+    pub fn link_authn_gate_create_stream(&self, user_id: u32) -> (r: Result<(), IggyError>)
+        ensures rule_result(self, r, Rule::CreateStream, user_id, 0, 0),
+    { self.create_stream(user_id) }
+    // label: C09.link.authn_gate.get_stream
+    pub fn link_authn_gate_get_stream(&self, user_id: u32, stream_id: u32) -> (r: Result<(), IggyError>)
+        ensures rule_result(self, r, Rule::GetStream, user_id, stream_id, 0),
+    { self.get_stream(user_id, stream_id) }
+    // label: C09.link.authn_gate.update_stream
+    pub fn link_authn_gate_update_stream(&self, user_id: u32, stream_id: u32) -> (r: Result<(), IggyError>)
+        ensures rule_result(self, r, Rule::UpdateStream, user_id, stream_id, 0),
+    { self.update_stream(user_id, stream_id) }
+    // label: C09.link.authn_gate.delete_stream
+    pub fn link_authn_gate_delete_stream(&self, user_id: u32, stream_id: u32) -> (r: Result<(), IggyError>)
+        ensures rule_result(self, r, Rule::DeleteStream, user_id, stream_id, 0),
+    { self.delete_stream(user_id, stream_id) }
+    // label: C09.link.authn_gate.purge_stream
+    pub fn link_authn_gate_purge_stream(&self, user_id: u32, stream_id: u32) -> (r: Result<(), IggyError>)
+        ensures rule_result(self, r, Rule::PurgeStream, user_id, stream_id, 0),
+    { self.purge_stream(user_id, stream_id) }
+    // label: C09.link.authn_gate.get_topics
+    pub fn link_authn_gate_get_topics(&self, user_id: u32, stream_id: u32) -> (r: Result<(), IggyError>)
+        ensures rule_result(self, r, Rule::GetTopics, user_id, stream_id, 0),
+    { self.get_topics(user_id, stream_id) }
+    // label: C09.link.authn_gate.create_topic
+    pub fn link_authn_gate_create_topic(&self, user_id: u32, stream_id: u32) -> (r: Result<(), IggyError>)
+        ensures rule_result(self, r, Rule::CreateTopic, user_id, stream_id, 0),
+    { self.create_topic(user_id, stream_id) }
+    // label: C09.link.authn_gate.get_topic
+    pub fn link_authn_gate_get_topic(&self, user_id: u32, stream_id: u32, topic_id: u32) -> (r: Result<(), IggyError>)
+        ensures rule_result(self, r, Rule::GetTopic, user_id, stream_id, topic_id),
+    { self.get_topic(user_id, stream_id, topic_id) }
+    // label: C09.link.authn_gate.update_topic
+    pub fn link_authn_gate_update_topic(&self, user_id: u32, stream_id: u32, topic_id: u32) -> (r: Result<(), IggyError>)
+        ensures rule_result(self, r, Rule::UpdateTopic, user_id, stream_id, topic_id),
+    { self.update_topic(user_id, stream_id, topic_id) }
+    // label: C09.link.authn_gate.delete_topic
+    pub fn link_authn_gate_delete_topic(&self, user_id: u32, stream_id: u32, topic_id: u32) -> (r: Result<(), IggyError>)
+        ensures rule_result(self, r, Rule::DeleteTopic, user_id, stream_id, topic_id),
+    { self.delete_topic(user_id, stream_id, topic_id) }
+    // label: C09.link.authn_gate.purge_topic
+    pub fn link_authn_gate_purge_topic(&self, user_id: u32, stream_id: u32, topic_id: u32) -> (r: Result<(), IggyError>)
+        ensures rule_result(self, r, Rule::PurgeTopic, user_id, stream_id, topic_id),
+    { self.purge_topic(user_id, stream_id, topic_id) }
+    // label: C09.link.authn_gate.create_partitions
+    pub fn link_authn_gate_create_partitions(&self, user_id: u32, stream_id: u32, topic_id: u32) -> (r: Result<(), IggyError>)
+        ensures rule_result(self, r, Rule::CreatePartitions, user_id, stream_id, topic_id),
+    { self.create_partitions(user_id, stream_id, topic_id) }
+    // label: C09.link.authn_gate.delete_partitions
+    pub fn link_authn_gate_delete_partitions(&self, user_id: u32, stream_id: u32, topic_id: u32) -> (r: Result<(), IggyError>)
+        ensures rule_result(self, r, Rule::DeletePartitions, user_id, stream_id, topic_id),
+    { self.delete_partitions(user_id, stream_id, topic_id) }
+    // label: C09.link.authn_gate.poll_messages
+    pub fn link_authn_gate_poll_messages(&self, user_id: u32, stream_id: u32, topic_id: u32) -> (r: Result<(), IggyError>)
+        requires self.wf(),
+        ensures rule_result(self, r, Rule::PollMessages, user_id, stream_id, topic_id),
+    { self.poll_messages(user_id, stream_id, topic_id) }
+    // label: C09.link.authn_gate.append_messages
+    pub fn link_authn_gate_append_messages(&self, user_id: u32, stream_id: u32, topic_id: u32) -> (r: Result<(), IggyError>)
+        requires self.wf(),
+        ensures rule_result(self, r, Rule::AppendMessages, user_id, stream_id, topic_id),
+    { self.append_messages(user_id, stream_id, topic_id) }
+    // label: C09.link.authn_gate.create_consumer_group
+    pub fn link_authn_gate_create_consumer_group(&self, user_id: u32, stream_id: u32, topic_id: u32) -> (r: Result<(), IggyError>)
+        ensures rule_result(self, r, Rule::CreateConsumerGroup, user_id, stream_id, topic_id),
+    { self.create_consumer_group(user_id, stream_id, topic_id) }
+    // label: C09.link.authn_gate.delete_consumer_group
+    pub fn link_authn_gate_delete_consumer_group(&self, user_id: u32, stream_id: u32, topic_id: u32) -> (r: Result<(), IggyError>)
+        ensures rule_result(self, r, Rule::DeleteConsumerGroup, user_id, stream_id, topic_id),
+    { self.delete_consumer_group(user_id, stream_id, topic_id) }
+    // label: C09.link.authn_gate.get_consumer_group
+    pub fn link_authn_gate_get_consumer_group(&self, user_id: u32, stream_id: u32, topic_id: u32) -> (r: Result<(), IggyError>)
+        ensures rule_result(self, r, Rule::GetConsumerGroup, user_id, stream_id, topic_id),
+    { self.get_consumer_group(user_id, stream_id, topic_id) }
+    // label: C09.link.authn_gate.get_consumer_groups
+    pub fn link_authn_gate_get_consumer_groups(&self, user_id: u32, stream_id: u32, topic_id: u32) -> (r: Result<(), IggyError>)
+        ensures rule_result(self, r, Rule::GetConsumerGroups, user_id, stream_id, topic_id),
+    { self.get_consumer_groups(user_id, stream_id, topic_id) }
+    // label: C09.link.authn_gate.join_consumer_group
+    pub fn link_authn_gate_join_consumer_group(&self, user_id: u32, stream_id: u32, topic_id: u32) -> (r: Result<(), IggyError>)
+        ensures rule_result(self, r, Rule::JoinConsumerGroup, user_id, stream_id, topic_id),
+    { self.join_consumer_group(user_id, stream_id, topic_id) }
+    // label: C09.link.authn_gate.leave_consumer_group
+    pub fn link_authn_gate_leave_consumer_group(&self, user_id: u32, stream_id: u32, topic_id: u32) -> (r: Result<(), IggyError>)
+        ensures rule_result(self, r, Rule::LeaveConsumerGroup, user_id, stream_id, topic_id),
+    { self.leave_consumer_group(user_id, stream_id, topic_id) }
+    // label: C09.link.authn_gate.get_consumer_offset
+    pub fn link_authn_gate_get_consumer_offset(&self, user_id: u32, stream_id: u32, topic_id: u32) -> (r: Result<(), IggyError>)
+        requires self.wf(),
+        ensures rule_result(self, r, Rule::GetConsumerOffset, user_id, stream_id, topic_id),
+    { self.get_consumer_offset(user_id, stream_id, topic_id) }
+    // label: C09.link.authn_gate.store_consumer_offset
+    pub fn link_authn_gate_store_consumer_offset(&self, user_id: u32, stream_id: u32, topic_id: u32) -> (r: Result<(), IggyError>)
+        requires self.wf(),
+        ensures rule_result(self, r, Rule::StoreConsumerOffset, user_id, stream_id, topic_id),
+    { self.store_consumer_offset(user_id, stream_id, topic_id) }
+    // label: C09.link.authn_gate.delete_consumer_offset
+    pub fn link_authn_gate_delete_consumer_offset(&self, user_id: u32, stream_id: u32, topic_id: u32) -> (r: Result<(), IggyError>)
+        requires self.wf(),
+        ensures rule_result(self, r, Rule::DeleteConsumerOffset, user_id, stream_id, topic_id),
+    { self.delete_consumer_offset(user_id, stream_id, topic_id) }
+    // --- the three table mutators: copied from units/authn_gate/prelude.rs AFTER this link weakened them. The stubs used to open with
+    // `final(self).rows(user_id) == Some(permissions)` (init, update) / `final(self).rows(user_id) is None` (delete) over
+    // `rows(user) -> Option<Option<Permissions>>`: "the tables determine the registered record". That is more than [C09.tables.*.rows] proves
+    // (rows_are is a relation: the denormalisation is not injective, e.g. `streams: None` and `streams: Some(empty)` leave the same rows), for
+    // init it also needs `no_rows(old(self), user_id)`, and nothing in authn_gate used it. What authn_gate uses — the FRAME — is proved here
+    // without any precondition.
+    // label: C09.link.authn_gate.init_permissions_for_user
+    pub fn link_authn_gate_init_permissions_for_user(&mut self, user_id: u32, permissions: Option<Permissions>)
+        ensures
+            forall|v: u32| v != user_id ==> #[trigger] final(self).rows(v) == old(self).rows(v),
+            user_id != 0 ==> final(self).no_anon() == old(self).no_anon(),
+    {
+        self.init_permissions_for_user(user_id, permissions);
+        proof { lemma_rows_frame(old(self), self, user_id); }
+    }
+    // label: C09.link.authn_gate.update_permissions_for_user
+    pub fn link_authn_gate_update_permissions_for_user(&mut self, user_id: u32, permissions: Option<Permissions>)
+        ensures
+            forall|v: u32| v != user_id ==> #[trigger] final(self).rows(v) == old(self).rows(v),
+            user_id != 0 ==> final(self).no_anon() == old(self).no_anon(),
+    {
+        self.update_permissions_for_user(user_id, permissions);
+        proof { lemma_rows_frame(old(self), self, user_id); }
+    }
+    // label: C09.link.authn_gate.delete_permissions_for_user
+    pub fn link_authn_gate_delete_permissions_for_user(&mut self, user_id: u32)
+        ensures
+            forall|v: u32| v != user_id ==> #[trigger] final(self).rows(v) == old(self).rows(v),
+            user_id != 0 ==> final(self).no_anon() == old(self).no_anon(),
+    {
+        self.delete_permissions_for_user(user_id);
+        proof { lemma_rows_frame(old(self), self, user_id); }
+    }
+}
+
+// ---- units users_restart / catalogue_more: the abstract view `rows() -> Map<u32, Option<Permissions>>` ("user id -> the permissions registered
+// for it") of an opaque Permissioner. It is NOT a function of the real tables (the denormalisation is not injective), so it cannot be given an
+// interpretation like `rows(u)` above; it is GHOST BOOKKEEPING. The link is therefore a SIMULATION: a ghost map `reg`, coupled to the real
+// tables by `coupled` (every registered user's rows are the denormalisation of its record, every other user has no rows, the tables are
+// well-formed), stays coupled when it is updated exactly as the stubs say — `reg.insert(user_id, permissions)` / `reg.remove(user_id)` —
+// while the REAL function runs on the tables. The stubs' ensures are the `reg2 == ..` lines, copied verbatim with `rows()` read as `reg`.
+// The simulation needs `!reg.contains_key(user_id)` for init (the real function only ADDS rows: on a user that has rows the old stream rows
+// and membership-set entries survive): that precondition had been dropped by both stubs and was added to them by this link.
+pub open spec fn coupled(p: &Permissioner, reg: Map<u32, Option<Permissions>>) -> bool {
+    &&& perm_wf(p)
+    &&& forall|u: u32| #[trigger] reg.contains_key(u) ==> rows_are(p, u, reg[u])
+    &&& forall|u: u32| !#[trigger] reg.contains_key(u) ==> no_rows(p, u)
+}
+// the rows of another user, and their absence, survive a change confined to user u
+pub proof fn lemma_rows_are_frame(a: &Permissioner, b: &Permissioner, u: u32, v: u32, x: Option<Permissions>)
+    requires others_same(a, b, u), v != u,
+    ensures rows_are(a, v, x) ==> rows_are(b, v, x), no_rows(a, v) ==> no_rows(b, v),
+{
+}
+impl Permissioner {
+    // stub `Permissioner::init_permissions_for_user` of units/users_restart/prelude.rs and units/catalogue_more/prelude.rs:
+    //     requires !old(self).rows().contains_key(user_id)                                   (ADDED by the link)
+    //     ensures final(self).rows() == old(self).rows().insert(user_id, permissions)
+    // label: C09.link.users_restart.init_permissions_for_user
+    pub fn link_rows_view_init_permissions_for_user(&mut self, Ghost(reg): Ghost<Map<u32, Option<Permissions>>>, user_id: u32, permissions: Option<Permissions>)
+        -> (reg2: Ghost<Map<u32, Option<Permissions>>>)
+        requires coupled(old(self), reg), !reg.contains_key(user_id),
+        ensures coupled(final(self), reg2@), reg2@ == reg.insert(user_id, permissions),
+    {
+        self.init_permissions_for_user(user_id, permissions);
+        proof {
+            assert forall|u: u32| #[trigger] reg.insert(user_id, permissions).contains_key(u) implies rows_are(self, u, reg.insert(user_id, permissions)[u]) by {
+                if u != user_id { lemma_rows_are_frame(old(self), self, user_id, u, reg[u]); }
+            }
+            assert forall|u: u32| !#[trigger] reg.insert(user_id, permissions).contains_key(u) implies no_rows(self, u) by {
+                lemma_rows_are_frame(old(self), self, user_id, u, None);
+            }
+        }
+        Ghost(reg.insert(user_id, permissions))
+    }
+    // stub `Permissioner::update_permissions_for_user` of units/users_restart/prelude.rs:
+    //     ensures final(self).rows() == old(self).rows().insert(user_id, permissions)
+    // label: C09.link.users_restart.update_permissions_for_user
+    pub fn link_rows_view_update_permissions_for_user(&mut self, Ghost(reg): Ghost<Map<u32, Option<Permissions>>>, user_id: u32, permissions: Option<Permissions>)
+        -> (reg2: Ghost<Map<u32, Option<Permissions>>>)
+        requires coupled(old(self), reg),
+        ensures coupled(final(self), reg2@), reg2@ == reg.insert(user_id, permissions),
+    {
+        self.update_permissions_for_user(user_id, permissions);
+        proof {
+            assert forall|u: u32| #[trigger] reg.insert(user_id, permissions).contains_key(u) implies rows_are(self, u, reg.insert(user_id, permissions)[u]) by {
+                if u != user_id { lemma_rows_are_frame(old(self), self, user_id, u, reg[u]); }
+            }
+            assert forall|u: u32| !#[trigger] reg.insert(user_id, permissions).contains_key(u) implies no_rows(self, u) by {
+                lemma_rows_are_frame(old(self), self, user_id, u, None);
+            }
+        }
+        Ghost(reg.insert(user_id, permissions))
+    }
+    // stub `Permissioner::delete_permissions_for_user` of units/catalogue_more/prelude.rs:
+    //     ensures final(self).rows() == old(self).rows().remove(user_id)
+    // label: C09.link.catalogue_more.delete_permissions_for_user
+    pub fn link_rows_view_delete_permissions_for_user(&mut self, Ghost(reg): Ghost<Map<u32, Option<Permissions>>>, user_id: u32)
+        -> (reg2: Ghost<Map<u32, Option<Permissions>>>)
+        requires coupled(old(self), reg),
+        ensures coupled(final(self), reg2@), reg2@ == reg.remove(user_id),
+    {
+        self.delete_permissions_for_user(user_id);
+        proof {
+            assert forall|u: u32| #[trigger] reg.remove(user_id).contains_key(u) implies rows_are(self, u, reg.remove(user_id)[u]) by {
+                lemma_rows_are_frame(old(self), self, user_id, u, reg[u]);
+            }
+            assert forall|u: u32| !#[trigger] reg.remove(user_id).contains_key(u) implies no_rows(self, u) by {
+                if u != user_id { lemma_rows_are_frame(old(self), self, user_id, u, None); }
+            }
+        }
+        Ghost(reg.remove(user_id))
+    }
+}
